@@ -348,7 +348,8 @@ class FittedParamExtractor(_PanelToTabularTransformer):
         def _get_instance(X, key):
             # assuming univariate data
             if isinstance(X, pd.DataFrame):
-                return X.iloc[key, 0]
+                # cells may be pd.Series or np.arrays
+                return pd.Series(X.iloc[key, 0])
             else:
                 return pd.Series(X[key, 0])
 
